@@ -24,3 +24,38 @@ theorem C15_rawStored_every_prefix_rejected (ds : List Bytes) (hne : ds ≠ []) 
     (k : Nat) (hk : k < (storedEnc ds).length) :
     inflateRaw ((storedEnc ds).take k) = none :=
   C15_inflateRaw_truncated _ (by simpa using C13_inflate_stored_blocks ds hne hl) (by omega) k hk
+
+/-! ### at the level of `decode_body` -/
+
+theorem encGzip0_eq (x : Bytes) : encGzip0 x = gzipStored (pieces x) 0 0 0 0 0 255 := by
+  unfold encGzip0 gzipStored
+  rw [(pieces_ok x).2.1]
+
+theorem tokens_gzip : headerTokens [⟨kContentEncoding, kGzip⟩] kContentEncoding = [kGzip] := by decide +kernel
+
+/-- C15 at `decode_body` (modelled decoders, level-0 gzip): for every body `x` and every cut `k`, a
+    message whose Content-Encoding is `gzip` and whose body is the first `k` bytes of the encoding of
+    `x` is refused, and its headers are returned untouched — no partial content, no rewritten
+    Content-Length -/
+theorem C15_decodeBody_truncated_gzip (hs : List Header) (htok : headerTokens hs kContentEncoding = [kGzip])
+    (x : Bytes) (k : Nat) (hk : k < (encGzip0 x).length) :
+    decodeBody gunzip deflateSniff hs ((encGzip0 x).take k) = (hs, none) := by
+  obtain ⟨hne, _, hle⟩ := pieces_ok x
+  have hnone : gunzip ((encGzip0 x).take k) = none := by
+    rw [encGzip0_eq] at hk ⊢
+    exact C15_gzipStored_every_prefix_rejected (pieces x) hne hle 0 0 0 0 0 255 k hk
+  unfold decodeBody
+  rw [htok]
+  simp [decodeRev, hnone]
+
+/-- C13 at `decode_body` for the same message, uncut: the body comes back, Content-Encoding is removed
+    and Content-Length is set to the decoded length -/
+theorem C13_decodeBody_gzip (hs : List Header) (htok : headerTokens hs kContentEncoding = [kGzip]) (x : Bytes) :
+    decodeBody gunzip deflateSniff hs (encGzip0 x)
+      = (setHeader (removeHeader hs kContentEncoding) kContentLength (natToDec x.length), some x) := by
+  unfold decodeBody
+  rw [htok]
+  simp [decodeRev, gunzip_encGzip0]
+
+/-- the token hypothesis is satisfiable: `Content-Encoding: gzip` -/
+example : headerTokens [⟨kContentEncoding, kGzip⟩] kContentEncoding = [kGzip] := tokens_gzip
